@@ -40,6 +40,8 @@ func main() {
 		os.Exit(replayMain(args[1]))
 	case "count-child":
 		os.Exit(countChildMain(args[1:]))
+	case "count-child-api":
+		os.Exit(countChildAPIMain(args[1:]))
 	case "race-child":
 		os.Exit(raceChildMain(args[1:]))
 	}
